@@ -509,7 +509,17 @@ var (
 func runSolver(ctx context.Context, sp solverSpec, text string, timeout time.Duration) (string, string, int) {
 	cctx, cancel := context.WithTimeout(ctx, timeout)
 	defer cancel()
-	cmd := exec.CommandContext(cctx, sp.cmd[0], sp.cmd[1:]...)
+	args := append([]string(nil), sp.cmd[1:]...)
+	if strings.HasPrefix(sp.cmd[0], "z3") {
+		// belt and braces: the solver stops by itself shortly after our own deadline and never
+		// grows beyond a few GB (a solver that outlives a killed checker once held 24 GB for hours
+		// and made every later run time out)
+		args = append(args, fmt.Sprintf("-T:%d", int(timeout.Seconds())+5), "-memory:6000")
+	}
+	if strings.HasPrefix(sp.cmd[0], "cvc5") {
+		args = append([]string{fmt.Sprintf("--tlimit=%d", (int(timeout.Seconds())+5)*1000)}, args...)
+	}
+	cmd := exec.CommandContext(cctx, sp.cmd[0], args...)
 	cmd.Stdin = strings.NewReader(text)
 	var out bytes.Buffer
 	cmd.Stdout = &out
